@@ -440,9 +440,30 @@ class C19(TrainCase):
         names = list(hpmod.HP_NAMES)
         callables = {n for n in names if rng.random() < 0.5}
         kw: dict[str, Any] = {}
+        import functools
+
+        class _Obj:
+            def __init__(self, c: Any) -> None:
+                self.c = c
+
+            def __call__(self, s: int) -> Any:
+                return self.c
+
+            def method(self, s: int) -> Any:
+                return self.c
+
+        def _fn(c: Any, s: int) -> Any:
+            return c
+
         for n in names:
             const = 2 if n in hpmod.INT_HPS else 0.5
-            kw[n] = (lambda s, c=const: c) if n in callables else const
+            # "already a function": every kind of callable counts
+            kind = rng.choice(['lambda', 'partial', 'object', 'method'])
+            fn = {'lambda': (lambda s, c=const: c),
+                  'partial': functools.partial(_fn, const),
+                  'object': _Obj(const),
+                  'method': _Obj(const).method}[kind]
+            kw[n] = fn if n in callables else const
         pre = KFACPreconditioner(torch.nn.Linear(3, 2), **kw)
         for n in names:
             oc.stats['refusal_checks'] += 1
